@@ -117,6 +117,23 @@ func init() {
 		if w.n < 0 {
 			panic(targetPanic{iface{ex.prog.runtimeErrorString, "sync: negative WaitGroup counter"}})
 		}
+		if d > 0 && w.n == d && ex.hbOn() {
+			// "calls with a positive delta that occur when the counter is zero
+			// must happen before a Wait": modelled as the race detector does
+			if w.sema == nil {
+				w.sema = new(value)
+			}
+			old := ex.hbWhat
+			ex.hbWhat = "WaitGroup (Add from zero concurrent with Wait)"
+			// (the access is attributed to the function that calls Add)
+			savedFr := ex.cur.fr
+			if fr != nil && fr.caller != nil {
+				ex.cur.fr = fr.caller
+			}
+			ex.hbRead(w.sema)
+			ex.cur.fr = savedFr
+			ex.hbWhat = old
+		}
 		if d < 0 {
 			s := ex.hbSnapshot(ex.cur)
 			w.vc.join(s)
@@ -138,6 +155,24 @@ func init() {
 	reg("(*sync.WaitGroup).Wait", func(ex *Exec, fr *frame, a []value) value {
 		w := wgOf(ex, a[0].(*value))
 		ex.preemptPoint("WaitGroup.Wait")
+		if w.n != 0 && ex.hbOn() {
+			if w.waiters == 0 {
+				if w.sema == nil {
+					w.sema = new(value)
+				}
+				old := ex.hbWhat
+				ex.hbWhat = "WaitGroup (Add from zero concurrent with Wait)"
+				savedFr := ex.cur.fr
+				if fr != nil && fr.caller != nil {
+					ex.cur.fr = fr.caller
+				}
+				ex.hbWrite(w.sema)
+				ex.cur.fr = savedFr
+				ex.hbWhat = old
+			}
+			w.waiters++
+			defer func() { w.waiters-- }()
+		}
 		ex.blockUntil(func() bool { return w.n == 0 }, "WaitGroup.Wait")
 		ex.hbJoin(ex.cur, w.vc)
 		return nil
